@@ -139,7 +139,7 @@ Section Tree.
     assert (Hn : name_ok p = true) by (apply Hs; left; reflexivity).
     apply andb_true_iff in Hn. destruct Hn as [Hh _].
     assert (Eh : ost (10 :: rev_append (header_of p) (if first then out else 10 :: out)) = LCode).
-    { rewrite ost_cons, ost_push, (header_neutral p _ Ha Hh). reflexivity. }
+    { rewrite ost_cons, ost_push. erewrite header_neutral; [reflexivity|exact Ha|exact Hh]. }
     destruct (process_g_eq (fuel_for t) p g _ Eh) as [E Hend]. rewrite E.
     destruct (process (fuel_for t) t p g (10 :: rev_append (header_of p) (if first then out else 10 :: out))) as [out2 g2].
     cbn [fst] in Hend. apply IH; [intros x Hx; apply Hs; right; exact Hx|].
